@@ -996,6 +996,17 @@ class QuantityMeta(ClassWithDefinitionMeta):
         # reference unit
         if define_as is not None:
             assert define_as, "Given definition is not valid."  # empty Term
+            # reject an already defined quantity type before anything gets
+            # registered (i. e. before the reference unit is created)
+            if isinstance(define_as, Term):
+                try:
+                    reg_cls = mcs._registry[define_as]
+                except KeyError:
+                    pass
+                else:
+                    raise ValueError("Class with same or equivalent "
+                                     "definition already registered: "
+                                     f"'{reg_cls}'.")
             try:
                 ref_unit_def = UnitDefT(_iter_ref_units(define_as))
             except TypeError:
